@@ -292,6 +292,10 @@ def gen_op(rng, w):
     if w.last["cap"] - w.last["acc"] <= w.last["cap"] // 10 and roll < 0.7:
         return ["TopUp", OWNER, topup_amount(rng, w)]
     if sh["rate"] != 0 and not sh["produce"] and roll < 0.6:
+        # production was stopped (or never started): let an idle gap pass before the restart about a third of the
+        # time, so that "restart is not retroactive" is exercised with blocks between endProduceRewards and start
+        if roll < 0.2 and sh.get("last", 0) >= w.blk:
+            return ["Time", rng.choice([1, 10, 100, 10000]), rng.choice([7, 7, 8, 14, 1])]
         return ["Start", OWNER]
     if w.cfg.get("boost"):
         st = w.__dict__.setdefault("boost_stage", 0)
